@@ -39,6 +39,8 @@ class Evaluator:
         self.namespace = namespace \
             if namespace is not None else xl.FUNCTIONS.copy()
         self.cache_count = 0
+        # Addresses of the formula cells that are being evaluated right now.
+        self._evaluating = []
 
     def _get_context(self, ref):
         return EvaluatorContext(self, ref)
@@ -82,7 +84,12 @@ class Evaluator:
         # 3. Prepare the execution environment and evaluate the formula.
         #    (Note: Range nodes will automatically evaluate all their
         #           dependencies.)
+        if addr in self._evaluating:
+            raise RuntimeError(
+                f'Cycle detected for {addr}:\n- '
+                + '\n- '.join(self._evaluating))
         context = context if context is not None else self._get_context(addr)
+        self._evaluating.append(addr)
         try:
             value = cell.formula.ast.eval(context)
         except Exception as err:
@@ -90,6 +97,8 @@ class Evaluator:
                 f"Problem evaluating cell {addr} formula "
                 f"{cell.formula.formula}: {repr(err)}"
             ).with_traceback(sys.exc_info()[2])
+        finally:
+            self._evaluating.pop()
 
         # 4. Update the cell value.
         #    Note for later: If an array is returned, we should distribute the
